@@ -14,7 +14,7 @@ Lemma execute_do_follows : forall r r2, Steps r r2 -> forall fuel n x r', execut
   (exists fuel2 n2, fuel2 <= fuel /\ n2 <= n /\ execute_do fuel2 r2 n2 = Ok (x, r')) \/
   (x = ROk /\ Steps r r' /\ Steps r' r2).
 Proof.
-  induction 1 as [r|r r1 r2 D S IH|r r1 r2 D S IH]; intros fuel n x r' H.
+  induction 1 as [r|r r1 r2 D CF S IH|r r1 r2 D CF S IH]; intros fuel n x r' H.
   - left. exists fuel, n. auto.
   - destruct fuel as [|fuel]; [discriminate H|]. cbn [execute_do] in H.
     destruct (r_exit_req r). { inversion H; subst. right. split; [reflexivity|]. split; [apply StepsRefl|eapply StepsExec; eauto]. }
@@ -42,7 +42,7 @@ Proof.
   intros G EF EP EX EV LB c4. pose proof G as (C & X & St & E & M & MR & SU).
   assert (G4 : Good (upd_cur r c4) c4) by (apply (good_upd r c c4 G); exact SU).
   split.
-  - eapply StepsCont; [|apply StepsRefl].
+  - apply steps_cont_upd.
     unfold do_iter. rewrite X, C, SU, EF, St.
     destruct frame_fuel_S as [k Hk]. rewrite Hk. cbn [frame_next]. rewrite EF.
     assert (A1 : at_end f = false) by (unfold at_end; apply Nat.eqb_neq; lia).
